@@ -73,6 +73,8 @@ var (
 	// datetimes: two spellings plus a datetime object equal to one of them
 	c07Date  = []rv.V{rv.N(), rv.S("2012-01-02"), rv.S("2012-01-01"), rv.D(c07d1)}
 	c07Date3 = []rv.V{rv.N(), rv.S("2012-01-02"), rv.S("2012-01-01")}
+	// datetimes whose distance from 1970 does not fit into 64 bits of nanoseconds (before 1678, after 2262) next to one that does
+	c07FarDate = []rv.V{rv.N(), rv.S("2300-01-01"), rv.S("1970-01-01"), rv.S("1500-06-01"), rv.S("2263-01-01 00:00:00")}
 	// numbers as a CSV file holds them: text
 	c07NumText  = []rv.V{rv.N(), rv.S("1"), rv.S("10"), rv.S("2"), rv.S("1.0")}
 	c07NumText4 = []rv.V{rv.N(), rv.S("1"), rv.S("10"), rv.S("1.0")}
@@ -89,7 +91,7 @@ type c07Pair struct {
 // c07AllValues: every value any family uses, for decoding replay payloads.
 func c07AllValues() map[string]rv.V {
 	m := map[string]rv.V{}
-	for _, al := range [][]rv.V{c07Num, c07Num3, c07BigInt, c07Text, c07Text3, c07Text2, c07Date, c07Date3, c07NumText, c07NumText4, c07NumText3, c07DateText, c07NaN} {
+	for _, al := range [][]rv.V{c07Num, c07Num3, c07BigInt, c07Text, c07Text3, c07Text2, c07Date, c07Date3, c07FarDate, c07NumText, c07NumText4, c07NumText3, c07DateText, c07NaN} {
 		for _, v := range al {
 			m[v.Key()] = v
 		}
@@ -748,7 +750,7 @@ func c07PlanOf(thorough bool) c07Plan {
 			sortPairs: []c07Pair{
 				{"num,text", c07Num, c07Text3, 4}, {"text,num", c07Text, c07Num3, 4}, {"num,num", c07Num, c07Num3, 4},
 				{"date,num", c07Date, c07Num3, 4}, {"text,date", c07Text, c07Date3, 4}, {"numtext,text", c07NumText, c07Text3, 4},
-				{"num,text2", c07Num, c07Text2, 5}, {"bigint,text2", c07BigInt, c07Text2, 4}},
+				{"num,text2", c07Num, c07Text2, 5}, {"bigint,text2", c07BigInt, c07Text2, 4}, {"fardate,text2", c07FarDate, c07Text2, 4}},
 			cutPairs: []c07Pair{
 				{"cut 3x2", c07Num3, []rv.V{rv.S("a"), rv.S("b")}, 5},
 				{"cut 4x2", []rv.V{rv.N(), rv.I(1), rv.I(2), rv.Fl(1)}, []rv.V{rv.N(), rv.S("a")}, 4},
@@ -761,7 +763,7 @@ func c07PlanOf(thorough bool) c07Plan {
 	return c07Plan{
 		sortPairs: []c07Pair{
 			{"num,text", c07Num, c07Text3, 3}, {"num,text2", c07Num, c07Text2, 4}, {"text,num", c07Text, c07Num3, 3}, {"num,num", c07Num, c07Num3, 3},
-			{"date,num", c07Date, c07Num3, 3}, {"text,date", c07Text, c07Date3, 3}, {"numtext,text", c07NumText, c07Text3, 3}, {"bigint,text2", c07BigInt, c07Text2, 3}},
+			{"date,num", c07Date, c07Num3, 3}, {"text,date", c07Text, c07Date3, 3}, {"numtext,text", c07NumText, c07Text3, 3}, {"bigint,text2", c07BigInt, c07Text2, 3}, {"fardate,text2", c07FarDate, c07Text2, 3}},
 		cutPairs: []c07Pair{
 			{"cut 3x2", c07Num3, []rv.V{rv.S("a"), rv.S("b")}, 4},
 			{"cut 3x1", []rv.V{rv.N(), rv.I(1), rv.Fl(1)}, []rv.V{rv.S("a")}, 4},
